@@ -387,6 +387,88 @@ def check_new_parent(case):
     return None
 
 
+GEN_HISTORIES = ("elaborate-part", "to_proto-part", "netlist-part", "elaborate-leaf", "to_proto-leaf", "elaborate-list",
+                 "failing-list", "export-twice")
+
+
+def check_generated_parts(hist):
+    """a design written in two parts which both call one generator with equal parameters, with something elaborated or
+    exported BETWEEN the writing of the two parts: the package of the whole equals the one written in one go"""
+    import hdl21 as h
+    w = {"generated_parts": hist}
+
+    def build(history):
+        @h.paramclass
+        class GP:
+            w = h.Param(dtype=int, desc="w", default=1)
+
+        @h.bundle
+        class GB:
+            x = h.Signal()
+            y = h.Signal(width=2)
+
+        @h.generator
+        def GLeaf(p: GP) -> h.Module:
+            m = h.Module()
+            m.a = h.Port(width=p.w)
+            m.b = GB(port=True)
+            m.r = h.R(r=p.w)(p=m.a[0], n=m.b.x)
+            return m
+
+        @h.generator
+        def GMid(p: GP) -> h.Module:
+            m = h.Module()
+            m.s = h.Signal(width=p.w)
+            m.bb = GB()
+            m.l = GLeaf(w=p.w)(a=m.s, b=m.bb)
+            return m
+        p1 = h.Module(name="GPart1")
+        p1.s = h.Signal(width=2)
+        p1.bb = GB()
+        p1.l = GLeaf(w=2)(a=p1.s, b=p1.bb)
+        p1.m = GMid(w=3)()
+        if history == "elaborate-part":
+            h.elaborate(p1)
+        elif history == "to_proto-part":
+            h.to_proto(p1)
+        elif history == "netlist-part":
+            h.netlist(p1, io.StringIO(), fmt="spice")
+        elif history == "elaborate-leaf":
+            h.elaborate(GLeaf(w=2))
+        elif history == "to_proto-leaf":
+            h.to_proto(GLeaf(w=3))
+        elif history == "elaborate-list":
+            h.elaborate([GLeaf(w=2), GMid(w=3)])
+        elif history == "failing-list":
+            try:
+                h.elaborate([GLeaf(w=2), p1, bad_module("array")])
+            except Exception:
+                pass
+        elif history == "export-twice":
+            h.to_proto(p1)
+            h.to_proto(GMid(w=3))
+        p2 = h.Module(name="GPart2")
+        p2.s = h.Signal(width=2)
+        p2.bb = GB()
+        p2.l = GLeaf(w=2)(a=p2.s, b=p2.bb)
+        p2.m = GMid(w=3)()
+        p2.m2 = GMid(w=2)()
+        top = h.Module(name="GWhole")
+        top.a = p1()
+        top.b = p2()
+        return top
+    try:
+        ref = h.to_proto(build("none")).SerializeToString(deterministic=True)
+        got = h.to_proto(build(hist)).SerializeToString(deterministic=True)
+    except Exception as e:
+        return (f"generated-parts.raises.{type(e).__name__}", f"a design whose first part went through `{hist}` before the second "
+                                                              f"was written: {type(e).__name__}: {str(e)[-160:]}", w)
+    if got != ref:
+        return ("generated-parts.differs", f"the package of a design whose first part went through `{hist}` before the second "
+                                           f"was written differs from the one written in one go", w)
+    return None
+
+
 def check_misc(case, refs):
     try:
         return _check_misc(case, refs)
@@ -536,6 +618,11 @@ def run(ctx):
                     rule="a module holding an instance whose parameter value has no package form, its two parents and itself "
                          "exported in every order (with repeats): each export raises as it does without history",
                     bound="3 kinds of value x 120 orders", key_of=repr)
+    ctx.run_bounded("generated-parts", list(GEN_HISTORIES), check_generated_parts,
+                    rule="a design in two parts that call one generator with equal parameters (directly and through another "
+                         "generator; bundle-valued ports), with an elaborate / to_proto / netlist of the first part, of the "
+                         "generated module, of a list, or a failing list call in between: package == the one written in one go",
+                    bound="8 histories", key_of=repr)
     ctx.run_bounded("new-parents-over-used-children", [(k, hh) for k in PARENT_KINDS for hh in CHILD_HISTORIES], check_new_parent,
                     rule="17 new parents (valid: same / equal bundle type, anonymous bundle, sub-bundle reference, no-connect, "
                          "port reference; invalid: a bundle type with an extra or missing signal / extra sub-bundle / wider "
@@ -551,6 +638,10 @@ def run(ctx):
 def replay(payload):
     import hdl21 as h
     inp = payload.get("input") or {}
+    if "generated_parts" in inp:
+        r = check_generated_parts(inp["generated_parts"])
+        print("replay:", r)
+        return 1 if r else 0
     if "new_parent" in inp:
         r = check_new_parent(eval(inp["new_parent"]))
         print("replay:", r)
